@@ -47,6 +47,7 @@ type planStep struct {
 type plan struct {
 	Shards   int        `json:"shards"`
 	Families []int64    `json:"families"`
+	Old      int64      `json:"old"`
 	Steps    []planStep `json:"steps"`
 	Cycles   []string   `json:"cycles"`
 }
@@ -72,6 +73,8 @@ type gen struct {
 	r        *rand.Rand
 	shards   int
 	families []int64
+	old      int64 // old family (its log partitions become candidates of the WAL garbage collector); 0 = none
+	oldGone  bool  // the plan has run the garbage collector after the old family was drained: no more rows for it
 	slots    map[int64][]int
 	uidN     int
 	hostN    int
@@ -252,6 +255,20 @@ func (g *gen) duringDataFlush(shard int, fam int64) injection {
 		Actions: []action{{Kind: "append", Rows: g.rowsFor(shard, fam, 1+g.r.Intn(2)), Writers: 1}, {Kind: "replicate", Steps: -1}}}
 }
 
+// oldAction: 1-2 rows for the old family.
+func (g *gen) oldAction() action {
+	a := action{Kind: "append", Writers: 1}
+	n := 1 + g.r.Intn(2)
+	for i := 0; i < n; i++ {
+		kind := "series"
+		if i > 0 && g.r.Intn(2) == 0 {
+			kind = "point"
+		}
+		a.Rows = append(a.Rows, g.row(kind, g.old, nil))
+	}
+	return a
+}
+
 func (g *gen) fam() int64 { return g.families[g.r.Intn(len(g.families))] }
 
 // appendAction makes 1..maxRows rows of one family.
@@ -330,7 +347,12 @@ func makePlan(r *rand.Rand, idx int, tier string, t0 int64) *plan {
 		families = append(families, t0-hourMs)
 	}
 	g := newGen(r, shards, families)
-	p := &plan{Shards: shards, Families: families}
+	// a family three days back: the write ahead log garbage collector removes its partitions once they are drained
+	old := t0 - 72*hourMs
+	g.old = old
+	g.slots[old] = r.Perm(slotsPerFam)
+	allFamilies := append(append([]int64(nil), families...), old)
+	p := &plan{Shards: shards, Families: allFamilies, Old: old}
 	// cycle kinds: every history has a truly idle flush cycle (preceded by a cycle that flushes the leftovers of the
 	// cycle before) followed by a cycle with new names; busy cycles have rows arriving at file-system operations of
 	// the flush steps.
@@ -358,9 +380,23 @@ func makePlan(r *rand.Rand, idx int, tier string, t0 int64) *plan {
 		}
 	}
 	_ = nrace
+	endCycle := func(c int, kind string) {
+		if r.Intn(2) == 0 {
+			add(planStep{Kind: "sync", Cycle: c, CycKind: kind})
+		}
+		if kind == "drain" && !g.oldGone {
+			// everything of the old family is flushed and acknowledged now: the garbage collector removes its partitions
+			add(planStep{Kind: "gc", Cycle: c, CycKind: kind})
+			g.oldGone = true
+		} else if r.Intn(3) == 0 {
+			add(planStep{Kind: "gc", Cycle: c, CycKind: kind})
+		}
+	}
 	// setup arrivals
 	g.cycle = 0
-	add(planStep{Kind: "arrive", Cycle: -1, Actions: []action{g.appendAction(3), g.appendAction(2), g.replicate(true)}})
+	add(planStep{Kind: "arrive", Cycle: -1, Actions: []action{g.appendAction(3), g.oldAction(), g.appendAction(2), g.replicate(true)}})
+	// the garbage collect task runs while the entries of the old family are consumed but not flushed
+	add(planStep{Kind: "gc", Cycle: -1})
 	for c, kind := range cycles {
 		g.cycle = c
 		g.inFlush = false
@@ -370,7 +406,13 @@ func makePlan(r *rand.Rand, idx int, tier string, t0 int64) *plan {
 			if r.Intn(2) == 0 {
 				acts = append(acts, g.arrival(2, false)...)
 			}
+			if !g.oldGone && r.Intn(2) == 0 {
+				acts = append(acts, g.oldAction(), action{Kind: "replicate", Steps: -1})
+			}
 			add(planStep{Kind: "arrive", Cycle: c, CycKind: kind, Actions: acts})
+			if !g.oldGone && r.Intn(2) == 0 {
+				add(planStep{Kind: "gc", Cycle: c, CycKind: kind})
+			}
 		}
 		g.inFlush = true
 		if c != raceCycle && r.Intn(2) == 0 {
@@ -405,9 +447,7 @@ func makePlan(r *rand.Rand, idx int, tier string, t0 int64) *plan {
 				}
 			}
 			add(cyc)
-			if r.Intn(2) == 0 {
-				add(planStep{Kind: "sync", Cycle: c, CycKind: kind})
-			}
+			endCycle(c, kind)
 			continue
 		}
 		meta := planStep{Kind: "meta", Cycle: c, CycKind: kind}
@@ -440,9 +480,9 @@ func makePlan(r *rand.Rand, idx int, tier string, t0 int64) *plan {
 			if busy && r.Intn(2) == 0 {
 				add(planStep{Kind: "arrive", Cycle: c, CycKind: kind, Actions: g.arrival(2, false)})
 			}
-			for _, fam := range families {
+			for _, fam := range allFamilies {
 				d := planStep{Kind: "data", Cycle: c, CycKind: kind, Shard: s, Family: fam}
-				if busy {
+				if busy && !(fam == old && g.oldGone) {
 					switch {
 					case c == raceCycle:
 						d.Racing = g.racingRows(s, fam)
@@ -465,9 +505,7 @@ func makePlan(r *rand.Rand, idx int, tier string, t0 int64) *plan {
 				add(d)
 			}
 		}
-		if r.Intn(2) == 0 {
-			add(planStep{Kind: "sync", Cycle: c, CycKind: kind})
-		}
+		endCycle(c, kind)
 	}
 	g.cycle = len(cycles)
 	g.inFlush = false
